@@ -66,6 +66,8 @@ VH_ROB_MEMBER(RobNsFrozen, Namespace, std::atomic<bool>, m_Frozen)
 VH_ROB_MEMBER(RobFnCallback, Function, Function::Callback, m_Callback)
 VH_ROB_STATIC(RobExecScript, bool (*type)(bhttp::request<bhttp::string_body>&, bhttp::response<bhttp::string_body>&,
 	const Dictionary::Ptr&, const String&, const String&, bool), ConsoleHandler, ExecuteScriptHelper)
+VH_ROB_STATIC(RobAutoComplete, bool (*type)(bhttp::request<bhttp::string_body>&, bhttp::response<bhttp::string_body>&,
+	const Dictionary::Ptr&, const String&, const String&, bool), ConsoleHandler, AutocompleteScriptHelper)
 }
 
 static const char *SECRET = "S3CR3T-c19-pw";
@@ -240,7 +242,10 @@ static Outcome EvalFilterSite(const String& text, const ApiUser::Ptr& user)
 	QueryDescription qd;
 	qd.Types.insert("Host");
 	qd.Permission = "objects/query/Host";
-	Dictionary::Ptr query = new Dictionary({ { "type", "Host" }, { "filter", text } });
+	/* filter_vars: what an API client may bind next to its filter — here live, shared values */
+	Dictionary::Ptr filterVars = new Dictionary({ { "fv_arr", l_Host->GetVars()->Get("list") }, { "fv_groups", l_Host->GetGroups() },
+		{ "fv_dict", l_Host->GetVars() }, { "fv_user", l_User }, { "fv_global_arr", ScriptGlobal::Get("C19Arr") } });
+	Dictionary::Ptr query = new Dictionary({ { "type", "Host" }, { "filter", text }, { "filter_vars", filterVars } });
 	try {
 		std::vector<Value> res = FilterUtility::GetFilterTargets(qd, query, user);
 		return { "ok", "targets=" + std::to_string(res.size()) };
@@ -350,8 +355,34 @@ static Outcome EvalConsoleSite(const String& text)
 	}
 }
 
+/* The second console endpoint: auto-complete-script evaluates everything in front of the last '.' of the word
+ * (consolehandler.cpp GetAutocompletionSuggestions) in the session frame with Sandboxed = sandboxed.  It swallows
+ * errors, so after the production call the same prefix is evaluated once more through the execute endpoint's frame
+ * construction to classify the outcome; state change / unsafe invocation / leak are observed over both. */
+static Outcome EvalCompleteSite(const String& text)
+{
+	namespace http = boost::beast::http;
+	http::request<http::string_body> request;
+	http::response<http::string_body> response;
+	Dictionary::Ptr params = new Dictionary();
+	try {
+		get(RobAutoComplete())(request, response, params, text + ".c19", "c19-session", true);
+		std::string body = response.body();
+		if (body.find(SECRET) != std::string::npos || body.find("987654321") != std::string::npos)
+			l_LeakMask |= 1;                  /* suggestions are names; a marker among them is a leak */
+	} catch (const std::exception& ex) {
+		std::string m = DiagnosticInformation(ex, false).CStr();
+		return { "escaped", m };             /* the endpoint never throws for a bad word */
+	}
+	int mask = l_LeakMask;
+	Outcome oc = EvalConsoleSite(text);
+	l_LeakMask = mask | (l_LeakMask & 1);     /* the serialised-object class (F-C19b) belongs to the execute endpoint */
+	return oc;
+}
+
 static Outcome EvalAt(const std::string& site, const String& text, const Object::Ptr& target = nullptr)
 {
+	if (site == "complete") return EvalCompleteSite(text);
 	if (site == "filter") return EvalFilterSite(text, l_User);
 	if (site == "filterpf") return EvalFilterSite(text, l_UserPF);
 	if (site == "console") return EvalConsoleSite(text);
@@ -405,6 +436,7 @@ static std::string UnHex(const std::string& s)
 
 static Snap l_Before;
 static bool l_HaveBefore = false;
+static void ResetLiveState(bool hostPart);
 
 /* Evaluate, snapshot, print the observation. */
 static bool l_GenOnly = false;               /* generator child: collect the op lines, evaluate nothing */
@@ -428,6 +460,11 @@ static void Observe(const std::string& opPrefix, const std::string& site, const 
 	int leak = (oc.text.find(SECRET) != std::string::npos || oc.text.find("987654321") != std::string::npos || (l_LeakMask & 1) || l_ValueLeak) ? 1 : ((l_LeakMask & 2) ? 2 : 0);
 	printf("%s | %s chg=%s leak=%d inv=%d\n", l_Current.c_str(), oc.kind.c_str(), chg, leak, invoked);
 	fflush(stdout);
+	if (chg[0] != '-' || chg[1] != '-') {
+		ResetLiveState(true);
+		ResetLiveState(false);
+		after = TakeSnap();
+	}
 	l_Before = after;
 	l_Current.clear();
 }
@@ -595,6 +632,23 @@ static const Canned l_Canned[] = {
 	{ "[ get_object(Host, \"c19-host\") ].map((h) => { h.display_name = \"x\" })", "(mcall (array (num 1)) map (function lambda (num 1)))", 0 },
 	{ "[ [ \"C19Nested_%S\", 1 ] ].map((p) => p.reduce(globals.set))", "(mcall (array (num 1)) map (function lambda (num 1)))", 0 },
 	{ "[ \"C19Global\" ].map(globals.remove.call)", "(mcall (array (str C19Global)) map (index (index (getScope globals) (str remove)) (str call)))", 0 },
+	/* `using` imports: objects, dictionaries, namespaces */
+	{ "using C19Dict\na", "(dict 1 (empty) (varIn (var C19Dict) a))", 1 },
+	{ "using globals\nC19Global", "(dict 1 (empty) (varIn (getScope globals) C19Global))", 1 },
+	{ "using get_object(Host, \"c19-host\")\ndisplay_name", "(dict 1 (empty) (varIn (obj c19-host) display_name))", 1 },
+	{ "using get_object(ApiUser, \"c19-user\")\npassword", "(dict 1 (empty) (varIn (obj c19-user) password))", 1 },
+	{ "using get_object(Host, \"c19-host\")\ndisplay_name = \"x\"", "(dict 1 (empty) (setVar display_name literal (str x)))", 1 },
+	/* whitelisted functions on live shared containers (several arguments, unsorted): nothing may be edited in place */
+	{ "len(intersection(get_object(Host, \"c19-host\").groups, [ \"x\" ])) > 0", "(binop greaterThan (call (fn System#len) (call (fn System#intersection) (index (obj c19-host) (str groups)) (array (str x)))) (num 0))", 0 },
+	{ "intersection(C19Arr, [ 1, 2, 3 ])", "(call (fn System#intersection) (var C19Arr) (array (num 1) (num 2) (num 3)))", 1 },
+	{ "intersection(get_object(Host, \"c19-host\").vars.list, [ \"a\" ], [ \"a\", \"b\" ])", "(call (fn System#intersection) (index (index (obj c19-host) (str vars)) (str list)) (array (str a)) (array (str a) (str b)))", 0 },
+	{ "union(C19Arr, get_object(Host, \"c19-host\").vars.list)", "(call (fn System#union) (var C19Arr) (index (index (obj c19-host) (str vars)) (str list)))", 0 },
+	{ "C19Arr.sort()", "(mcall (var C19Arr) sort)", 1 },
+	{ "get_object(Host, \"c19-host\").vars.list.sort().reverse().unique().join(\",\")", "(mcall (mcall (mcall (mcall (index (index (obj c19-host) (str vars)) (str list)) sort) reverse) unique) join (str ,))", 0 },
+	{ "C19Frozen.sort()", "(mcall (var C19Frozen) sort)", 0 },
+	{ "intersection(fv_arr, [ \"a\" ])", "(call (fn System#intersection) (var fv_arr) (array (str a)))", 0 },
+	{ "intersection(fv_groups, fv_global_arr, fv_arr)", "(call (fn System#intersection) (var fv_groups) (var fv_global_arr) (var fv_arr))", 0 },
+	{ "fv_dict.keys().sort()", "(mcall (mcall (var fv_dict) keys) sort)", 0 },
 	/* hidden values must not come back through any safe function */
 	{ "get_object(ApiUser, \"c19-user\").password", "(index (obj c19-user) (str password))", 1 },
 	{ "get_object(ApiUser, \"c19-user\")[\"password\"]", "(index (obj c19-user) (str password))", 1 },
@@ -833,6 +887,28 @@ static void WriteFile(const std::string& p, const std::string& content)
 
 static void PlantMarkers(const Object::Ptr& inst);
 
+/* The live, shared containers a sandboxed script can reach: attributes of a config object, lists and dictionaries
+ * nested in its vars, globals, a frozen array — all UNSORTED and with >= 2 elements, so that a "pure" function that
+ * sorts/edits its argument in place shows up in the (order-sensitive) snapshot.  Called again after a detected change
+ * so that one defect does not mask the next. */
+static void ResetLiveState(bool hostPart)
+{
+	if (hostPart) {
+		l_Host->SetGroups(new Array({ "zz-group", "aa-group", "mm-group" }));
+		l_Host->SetVars(new Dictionary({ { "os", "Linux" }, { "list", new Array({ "c", "a", "b" }) },
+			{ "nested", new Dictionary({ { "arr", new Array({ 3, 1, 2 }) }, { "d", new Dictionary({ { "k", "v" } }) } }) } }));
+		return;
+	}
+	try {
+		ScriptGlobal::Set("C19Global", 5);
+		ScriptGlobal::Set("C19Arr", new Array({ 3, 1, 2 }));
+		ScriptGlobal::Set("C19Dict", new Dictionary({ { "a", "x" }, { "sub", new Dictionary({ { "z", new Array({ 2, 1 }) } }) } }));
+		Array::Ptr frozen = new Array({ 9, 7, 8 });
+		frozen->Freeze();
+		ScriptGlobal::Set("C19Frozen", frozen);
+	} catch (const std::exception&) { }
+}
+
 static void Setup()
 {
 	for (const Type::Ptr& t : Type::GetAllTypes())
@@ -857,7 +933,7 @@ static void Setup()
 	l_Host = new Host();
 	l_Host->SetName("c19-host");
 	l_Host->SetDisplayName("c19 host");
-	l_Host->SetVars(new Dictionary({ { "os", "Linux" } }));
+	ResetLiveState(true);
 	l_Host->Register();
 	l_Host->SetActive(true);
 
@@ -889,9 +965,7 @@ static void Setup()
 	PlantMarkers(l_User);          /* same state whether or not an ApiUser line ran before */
 	PlantMarkers(l_UserPF);
 
-	ScriptGlobal::Set("C19Global", 5);
-	ScriptGlobal::Set("C19Arr", new Array({ 3, 1, 2 }));
-	ScriptGlobal::Set("C19Dict", new Dictionary({ { "a", "x" }, { "sub", new Dictionary() } }));
+	ResetLiveState(false);
 	ScriptGlobal::Set("C19NsLive", new Namespace());
 	ScriptGlobal::Set("TicketSalt", "c19-salt");   /* a plain global: readable by design (not an attribute) */
 }
@@ -957,6 +1031,11 @@ static void GenHidden()
 				{ "deref", "*(&obj." + fn + ")" },
 				{ "refget", "(&obj." + fn + ").get()" },
 				{ "derefidx", "*(&obj[\"" + fn + "\"])" },
+				{ "using", "using obj\n" + fn },                                   /* bare identifier through an import */
+				{ "usingexpr", "using obj\n[ " + fn + " ]" },
+				{ "usingcall", "using obj\nstring(" + fn + ")" },
+				{ "forin", "for (k => v in obj) { if (k == \"" + fn + "\") { log(v) } }" },
+				{ "getfield", "obj.get(\"" + fn + "\")" },
 			};
 			for (auto& pth : paths) {
 				std::ostringstream op;
@@ -990,9 +1069,12 @@ static void GenHidden()
 		"get_object(ApiUser, \"c19-user\").password", "get_object(ApiUser, \"c19-user\")[\"password\"]",
 		"*(&get_object(ApiUser, \"c19-user\").password)", "(&get_object(ApiUser, \"c19-user\").password).get()",
 		"get_objects(ApiUser)[0].password", "get_objects(ApiUser).map((u) => u.password)",
+		"using get_object(ApiUser, \"c19-user\")\npassword", "using get_object(ApiUser, \"c19-user\")\nmatch(\"S3*\", password)",
+		"using get_objects(ApiUser)[0]\n[ password, password_hash ]", "using fv_user\npassword",
+		"fv_user.password", "*(&fv_user.password)",
 	};
 	for (const char *g : gets)
-		for (const char *site : { "console", "filter", "filterpf", "event" }) {
+		for (const char *site : { "console", "complete", "filter", "filterpf", "event" }) {
 			std::ostringstream op;
 			op << "H " << site << " type=ApiUser field=password nuv=1 how=getobj";
 			Observe(op.str(), site, g);
@@ -1008,8 +1090,8 @@ static std::string Tok(const std::string& line, const std::string& key)
 	return line.substr(p, e == std::string::npos ? std::string::npos : e - p);
 }
 
-static const char *l_Sites[] = { "filter", "filterpf", "event", "console" };
-static const int l_SitesN = 4;
+static const char *l_Sites[] = { "filter", "filterpf", "event", "console", "complete" };
+static const int l_SitesN = 5;
 
 /* Everything `gen` evaluates, as op lines (run in the generator child: nothing is evaluated here). */
 static void GenLines(uint64_t seed, bool thorough)
@@ -1076,6 +1158,61 @@ static void GenLines(uint64_t seed, bool thorough)
 			op << "N " << site << " name=" << nr.name << " safe=" << (nr.safe ? 1 : 0);
 			Observe(op.str(), site, src);
 		}
+	}
+
+	/* 3b. every WHITELISTED function / prototype method with a live shared container in every argument position
+	 * (and as receiver), 1..3 arguments whatever arity it declares (variadic natives declare none) */
+	static const char *live[] = {
+		"get_object(Host, \"c19-host\").groups",           /* attribute of a config object */
+		"get_object(Host, \"c19-host\").vars.list",        /* list nested in vars */
+		"get_object(Host, \"c19-host\").vars.nested.arr",  /* two levels down */
+		"globals.C19Arr",                                   /* global */
+		"globals.C19Frozen",                                /* frozen array */
+		"get_object(Host, \"c19-host\").vars",             /* dictionary attribute */
+		"globals.C19Dict.sub",                              /* nested dictionary of a global */
+	};
+	static const char *filler[] = { "[ \"b\", \"a\" ]", "\"a\"", "1" };
+	int liveN = sizeof(live) / sizeof(live[0]);
+	for (const NativeRef& nr : order) {
+		if (!nr.safe) continue;
+		size_t hash = nr.name.find('#');
+		bool method = nr.callee.find("\"a,b\"") == 0 || nr.callee.find("7.") == 0 || nr.callee.find("true.") == 0 ||
+			nr.callee.find("globals.C19") == 0 || nr.callee.find("get_object(") == 0 || nr.callee.find("DateTime(") == 0 ||
+			nr.callee.find("(&") == 0 || nr.callee.find("Host.") == 0 || nr.callee.find("System.log.") == 0;
+		std::string prefix = hash == std::string::npos ? "" : nr.name.substr(0, hash);
+		std::string mname = nr.callee.substr(nr.callee.rfind('.') + 1);
+		int done = 0;
+		for (int n = 1; n <= 3; n++)
+			for (int pos = 0; pos < n; pos++)
+				for (int c = 0; c < liveN; c++) {
+					/* quick tier: a seeded third of the combinations beyond the first argument position */
+					if (!thorough && n > 1 && pos > 0 && rng.below(3) != 0) continue;
+					std::string src = nr.callee + "(";
+					for (int i = 0; i < n; i++) {
+						if (i) src += ", ";
+						src += i == pos ? live[c] : filler[(i + c) % 3];
+					}
+					src += ")";
+					const char *site = l_Sites[(done++ + c) % l_SitesN];
+					std::ostringstream op;
+					op << "N " << site << " name=" << nr.name << " safe=1";
+					Observe(op.str(), site, src);
+				}
+		/* prototype methods of containers: the live containers as receiver */
+		if (method && (prefix == "Array" || prefix == "Dictionary" || prefix == "Object"))
+			for (int c = 0; c < liveN; c++) {
+				bool isArr = c < 5;
+				if ((prefix == "Array") != isArr && prefix != "Object") continue;
+				for (int n = 0; n <= 2; n++) {
+					std::string src = std::string(live[c]) + "." + mname + "(";
+					for (int i = 0; i < n; i++) { if (i) src += ", "; src += filler[(i + c) % 3]; }
+					src += ")";
+					const char *site = l_Sites[(done++ + c) % l_SitesN];
+					std::ostringstream op;
+					op << "N " << site << " name=" << nr.name << " safe=1";
+					Observe(op.str(), site, src);
+				}
+			}
 	}
 }
 
